@@ -75,7 +75,10 @@ def random_tree(rng, depth=2, allow_process=True, tags=None, max_leaves=5):
         kind = 'P' if allow_process and rng.random() < 0.25 else 'T'
         nw = rng.choice([1, 1, 2, 3])
         bs = rng.choice([0, 0, 1, 3])
-        return [kind, next(tags), nw, bs, {}]
+        extra = {}
+        if kind == 'T' and rng.random() < 0.25:
+            extra['nstream'] = rng.choice([2, 3])  # in-worker thread pool: several requests in flight inside one worker
+        return [kind, next(tags), nw, bs, extra]
 
     def node(d):
         if d == 0 or rng.random() < 0.35:
